@@ -230,6 +230,10 @@ class Fold(object):
                 ctx.assume_raw(F(seq.term) == z3.Concat(F(base.term), bytes_term(fx)))
             else:
                 ctx.assume_raw(F(seq.term) == F(base.term) + int_term(fx))
+        elif st[0] == "alias":
+            other = st[1]
+            self._instantiate(ctx, other, F)
+            ctx.assume_raw(F(seq.term) == F(other.term))
         elif st[0] == "concat":
             a, b = st[1], st[2]
             self._instantiate(ctx, a, F)
@@ -363,3 +367,23 @@ class SMapSeq(object):
         self.seq = seq
         self.key = key
         self.elt_src = elt_src
+
+
+class SEnumSeq(object):
+    """enumerate(<symbolic sequence>, start)"""
+
+    def __init__(self, seq, start=0):
+        self.seq = seq
+        self.start = start
+
+
+def to_sseq(ctx, value, elem):
+    """a concrete list of objects as a symbolic sequence (each element adopted)"""
+    if isinstance(value, SSeq):
+        return value
+    cur = SSeq(z3.Empty(RSEQ), elem, ("empty",))
+    for x in value:
+        r = elem.adopt(ctx, x)
+        cur = SSeq(z3.Concat(cur.term, z3.Unit(r)) if cur.struct[0] != "empty" else z3.Unit(r),
+                   elem, ("snoc", cur, x))
+    return cur
